@@ -52,6 +52,25 @@ def end' (v : View) : ArrIt :=
   | d :: sub => ⟨v.base + d.nelems, d.stride, sub⟩
 end View
 
+/-- `cursor_t<ElementPtr, D, Strides>` (array_ref.hpp:661-747): `base_` and the tuple of strides -/
+structure Cursor where
+  base    : Int
+  strides : List Int
+deriving DecidableEq, Repr, Inhabited
+
+namespace Cursor
+/-- `operator[](n)`: D ≠ 1 `cursor_t<…, D-1>{base_ + get<0>(strides_)*n, strides_.tail()}`; D = 1 the element
+    `base_[get<0>(strides_)*n]` (a cursor with no stride left) -/
+def index (c : Cursor) (n : Int) : Cursor := ⟨c.base + c.strides.headD 0 * n, c.strides.tail⟩
+/-- `operator()(n, rest...)`: `operator[](n)(rest...)` -/
+def indexAll (c : Cursor) (idx : List Int) : Cursor := idx.foldl index c
+end Cursor
+
+namespace View
+/-- `home_aux_()` 1667 / 2681 / 2850: `cursor(this->base_, this->strides())` -/
+def home (v : View) : Cursor := ⟨v.base, v.strides⟩
+end View
+
 /-- `elements_range_t`: base and a layout.  Since the fix of the index-base defect the constructor stores a
     zero-based copy of the layout (`lyt.reindex(0, 0, ...)`, array_ref.hpp elements_range_t ctor). -/
 structure ElemRange where
